@@ -2,6 +2,7 @@ import NflowsModel.Core.Structure
 import NflowsModel.Lemmas.Coupling
 import NflowsModel.Lemmas.ViewLayout
 import Mathlib.Tactic
+import NflowsModel.Lemmas.StructureExec
 /-!
 # C07 — coupling layers leave identity features untouched and condition only on them
 
@@ -68,5 +69,48 @@ theorem param_layout_img {α : Type} [Inhabited α] (P : Array α) (B C M H W b 
 /-! non-vacuity: a concrete numeric mask with real-valued entries -/
 example : identityIdx floatX [-2.5, 0.0, 0.1, 3.0] = [0, 1] ∧ transformIdx floatX [-2.5, 0.0, 0.1, 3.0] = [2, 3] := by
   constructor <;> decide +kernel
+
+/-! ## the EXECUTED coupling layer (`couplingApply`, the function the driver runs), any `B`, `S`, mask, parameters -/
+
+/-- **identity features pass through the executed layer unchanged**, both directions, also when some element raised:
+    at every flat position of an identity channel the output array holds the input (an equality in `α`: bit-for-bit at
+    `Float`).  `MaskDisjoint` (no channel is in both index lists) holds for every NaN-free mask, and over ℝ. -/
+theorem exec_identity_passthrough {α : Type} (o : XOps α) (c : ElCfg) (mask : List α) (B S : Nat) (x params uparams : Array α)
+    (inverse : Bool) (hd : NF.StructureExec.MaskDisjoint o mask) {b ch s : Nat} (hch : ch ∈ identityIdx o mask) (hs : s < S) :
+    (couplingApply o c mask B S x params inverse none uparams).out[flatIdx mask.length S b ch s]?
+      = x[flatIdx mask.length S b ch s]? :=
+  NF.StructureExec.coupling_identity_passthrough' o c mask B S x params inverse uparams hd hch hs
+
+/-- **the conditioner of the executed layer is given exactly the identity split**: the gather of the identity channels
+    of the input (forward, with or without an unconditional transform), which — identity features being untouched — is
+    also the gather of the identity channels of the OUTPUT (both directions) -/
+theorem exec_conditioner_input {α : Type} (o : XOps α) (c : ElCfg) (mask : List α) (B S : Nat) (x params uparams : Array α)
+    (uc : Option ElCfg) (inverse : Bool) (hd : NF.StructureExec.MaskDisjoint o mask) :
+    (couplingApply o c mask B S x params false uc uparams).condIn = gatherCh x B mask.length S (identityIdx o mask) o.zero ∧
+    (couplingApply o c mask B S x params inverse none uparams).condIn
+      = gatherCh (couplingApply o c mask B S x params inverse none uparams).out B mask.length S (identityIdx o mask) o.zero :=
+  ⟨NF.StructureExec.coupling_condIn_forward o c mask B S x params uc uparams,
+   NF.StructureExec.coupling_condIn_eq_gather_out o c mask B S x params inverse uparams hd⟩
+
+/-- with an unconditional transform the INVERSE feeds the conditioner the already un-transformed identity features
+    (coupling.py:121-125) -/
+theorem exec_conditioner_input_unconditional_inverse {α : Type} (o : XOps α) (c ucfg : ElCfg) (mask : List α) (B S : Nat)
+    (x params uparams : Array α) :
+    (couplingApply o c mask B S x params true (some ucfg) uparams).condIn
+      = gatherCh (couplingUncond o mask B S x true (some ucfg) uparams) B mask.length S (identityIdx o mask) o.zero :=
+  NF.StructureExec.coupling_condIn_inverse_uc o c mask B S x params uparams ucfg
+
+/-- **refinement**: one row of the executed layer (2-D inputs, no unconditional transform) IS the abstract coupling of the
+    theorems above, for the `isT` derived from the numeric mask — here in the form "identity channels of the row are
+    unchanged", obtained THROUGH the abstract `identity_passthrough` -/
+theorem exec_refines_abstract_identity {α : Type} (o : XOps α) (c : ElCfg) (mask : List α) (B : Nat)
+    (x params uparams : Array α) {b : Nat} (hb : b < B) (hsz : B * mask.length ≤ x.size) (i : Fin mask.length)
+    (hi : NF.StructureExec.isT o mask i = false) :
+    NF.StructureExec.rowOf o mask.length b (couplingApply o c mask B 1 x params false none uparams).out i
+      = NF.StructureExec.rowOf o mask.length b x i :=
+  NF.StructureExec.executed_identity_passthrough o c mask B x params uparams hb hsz i hi
+
+/-- over the reals every mask has disjoint index lists -/
+example (e : Float → ℝ) (mask : List ℝ) : NF.StructureExec.MaskDisjoint (NF.realX e) mask := NF.StructureExec.maskDisjoint_real e mask
 
 end Properties.C07
